@@ -69,6 +69,8 @@ def _roll(data, k):
 
 def check1d(case):
     md = case["model"]
+    if cases.is_implicit(case["integ"]) and case.get("units"):
+        case = dict(case, units=[case["units"][0], 0])      # LU with partial pivoting is not scaling invariant: implicit runs keep the density unit only (see C01)
     c = dict(case, bcL={"type": "per"}, bcR={"type": "per"})
     P = sim.problem1d(c)
     n = P.n
